@@ -8,6 +8,7 @@ import (
 	"sync"
 	"time"
 
+	"github.com/AdguardTeam/urlfilter"
 	"github.com/AdguardTeam/urlfilter/filterlist"
 	"github.com/AdguardTeam/urlfilter/rules"
 )
@@ -396,6 +397,64 @@ func init() {
 			if contDiff > 0 {
 				diff += contDiff
 				flags += fmt.Sprintf("!ANSWER-DIFFERS-WHEN-THE-CACHE-LOCK-IS-BUSY:%d of %d, first req=%d", contDiff, len(reqs), contFirst)
+			}
+			// pass 6: the cosmetic side of the web engine, FIRST use by several goroutines at once on freshly built engines
+			// (rules with long domain lists, exceptions, generic rules): every answer is the sequential one
+			{
+				var doms []string
+				for k := 0; k < 24+len(line)%20; k++ {
+					doms = append(doms, fmt.Sprintf("cos%d.example", (k*7)%61))
+				}
+				cosText := strings.Join(doms, ",") + "##.banner\n" + strings.Join(doms[:18], ",") + "#@#.promo\n##.promo\n##.generic\ncos3.example,cos10.example##.short\n" +
+					strings.Join(doms[2:20], ",") + "#$#.injected { display: none }\n"
+				cosHosts := []string{"cos0.example", "www.cos7.example", "cos14.example", "a.b.cos21.example", "cos3.example", "other.example", "cos60.example", "cos35.example"}
+				mkCos := func() *urlfilter.Engine {
+					s, serr := filterlist.NewRuleStorage([]filterlist.RuleList{&filterlist.StringRuleList{ID: 9, RulesText: cosText}})
+					must(serr)
+					return urlfilter.NewEngine(s)
+				}
+				serCos := func(r urlfilter.CosmeticResult) string {
+					return sortedSet(r.ElementHiding.Generic) + "/" + sortedSet(r.ElementHiding.Specific) + "/" + sortedSet(r.ElementHiding.GenericExtCSS) + "/" + sortedSet(r.CSS.Specific)
+				}
+				ref := mkCos()
+				wantCos := make([]string, len(cosHosts))
+				for i, h := range cosHosts {
+					wantCos[i] = serCos(ref.GetCosmeticResult(h, rules.CosmeticOptionAll))
+				}
+				var cosDiff int64
+				var cmu sync.Mutex
+				firstCos := ""
+				for round := 0; round < 12; round++ {
+					e6 := mkCos()
+					start := make(chan struct{})
+					var wg6 sync.WaitGroup
+					for w := 0; w < n && w < 8; w++ {
+						wg6.Add(1)
+						go func(w int) {
+							defer wg6.Done()
+							<-start
+							for it := 0; it < 6; it++ {
+								i := (w + it) % len(cosHosts)
+								var got string
+								if p, _ := protect(func() { got = serCos(e6.GetCosmeticResult(cosHosts[i], rules.CosmeticOptionAll)) }); p || got != wantCos[i] {
+									cmu.Lock()
+									cosDiff++
+									if firstCos == "" {
+										firstCos = cosHosts[i] + ": " + got + " instead of " + wantCos[i]
+									}
+									cmu.Unlock()
+								}
+							}
+						}(w)
+					}
+					close(start)
+					wg6.Wait()
+				}
+				if cosDiff > 0 {
+					diff += int(cosDiff)
+					flags += fmt.Sprintf("!CONCURRENT-COSMETIC-ANSWER-DIFFERS:%d, first %s", cosDiff, strings.ReplaceAll(firstCos, "\n", " "))
+				}
+				st.Add("cosmetic_first_use_rounds", 12)
 			}
 			st.Add("inserts_with_busy_lock", mon5.held)
 			for _, k := range c14Kinds {
